@@ -3,7 +3,7 @@
 // VF-RULE: E2 under ASan+UBSan+libstdc++ assertions: for each entry point (one 'ep:' space each) every letter sequence of length 0..L over that entry point's alphabet of grammar-significant letters (characters, or words for description languages) times every listed option combination is fed to the real code; plus one 'rep:' space per entry point with every word w of 1..3 letters repeated to 64 and to 4096 bytes times every option combination. A case is non-trivial when its input is non-empty. Outcome of every case must be 'returned' or 'raised bpp::Exception'; foreign exceptions are caught by type, sanitizer reports/signals by the supervisor, non-termination by a per-case CPU-time watchdog.
 // VF-BOUND: byte strings up to 4 KiB are replaced by: all strings of length <= 5 (quick) / <= 7 (thorough) over 2..13 letters per entry point (the length is lowered per entry point so that a space stays under 150k (quick) / 2.5M (thorough) cases — the length actually used is in each space name), plus the repetition families w^k (|w|<=3 letters) of 64 and 4096 bytes. Inputs needing more distinct significant letters than that and lying outside the repetition families are not reached.
 // VF-LEVEL: bounded-exhaustive differential crash check: every listed (entry point, option combination, string) case is executed on the real code under sanitizers; no sampling, no mutation-based search
-// VF-ASSUME: ASan/UBSan/_GLIBCXX_ASSERTIONS detect the memory and arithmetic errors the property names (iterator arithmetic before begin() of a std::string is only seen when the corrupted result is read back);; a case that uses more than 0.05 s (short inputs; typical cases take 1-100 microseconds) / 0.5 s (4 KiB inputs; typical 0.1-20 ms) of CPU time does not terminate;; the character classification of the C locale
+// VF-ASSUME: ASan/UBSan/_GLIBCXX_ASSERTIONS detect the memory and arithmetic errors the property names (iterator arithmetic before begin() of a std::string is only seen when the corrupted result is read back);; a case that uses more than 0.05 s (short inputs; typical cases take 1-100 microseconds) / 0.25 s (4 KiB inputs; typical 0.1-20 ms) of CPU time does not terminate;; the character classification of the C locale
 // VF-TECHNIQUE: exhaustive small-scope input enumeration on the real code under sanitizers with forked, supervised workers
 // VF-BUDGET_QUICK: 240
 // VF-BUDGET_THOROUGH: 2400
@@ -38,11 +38,25 @@ struct EP {
   bool canRaise;                       // the entry point documents an exception on bad syntax (vacuity guard)
 };
 
+// ASan is about to print a report (symbolising takes longer than the per-case CPU budget): stop the watchdog so that the report, not the
+// watchdog, ends the worker
+extern "C" void __asan_on_error() { struct itimerval z; memset(&z, 0, sizeof z); setitimer(ITIMER_PROF, &z, nullptr); }
+
 static const char* g_site = "";
 static void S(vf::Case& c, const char* site) { g_site = site; c.site(site); }
 
+// Fill the stack region the library is about to use with a fixed byte pattern: a read of an uninitialised local then sees the same
+// value in every run (0x80808080 as int, a huge size_t), which makes such defects reproducible instead of depending on leftovers.
+__attribute__((noinline)) static void preconditionStack() {
+  volatile unsigned char buf[24576];
+  for (size_t i = 0; i < sizeof buf; ++i) buf[i] = 0x80;
+}
+
 static void execCase(const EP& ep, const string& in, int opt, vf::Case& c, double cpu) {
+  preconditionStack();
+  { static double scale = getenv("C16_CPU_SCALE") ? atof(getenv("C16_CPU_SCALE")) : 1.0; cpu *= scale; }   // development aid (diagnosing slow cases)
   if (!in.empty()) c.nontrivial();
+  c.note("case: entry point " + ep.name + " [" + ep.opts[(size_t)opt] + "] input " + show(in) + " (" + vf::str(in.size()) + " bytes)");
   g_site = ep.name.c_str(); c.site(g_site);
   armCpu(cpu);
   try {
@@ -470,16 +484,20 @@ static vector<EP> buildEPs() {
         size_t n = d->getNumberOfCategories(); use(n);
         for (size_t i = 0; i < n && i < 4; ++i) { use(d->getCategory(i)); use(d->getProbability(i)); }
       }, true);
-      // degenerate class counts (own small space: these fail on the unchanged tree for every description of some families)
-      vector<string> few(f.items.begin(), f.items.begin() + 3);
-      add("readDiscreteDistribution." + fam + ".class-count", few, {"n=0", "n=-1", "n=99999999", "n=0 parseArguments=0", "n=3000000000"},
-          [fam](const string& s, int o, vf::Case& c) {
-        const char* ns[] = {"n=0", "n=-1", "n=99999999", "n=0", "n=3000000000"};
-        string desc = fam + "(" + ns[o] + (s.empty() ? "" : ",") + s + ")";
+    }
+    // degenerate class counts for every family (own small space: these fail on the unchanged tree for every description of some families)
+    {
+      vector<string> famn = {"Gamma", "Beta", "Gaussian", "Exponential", "TruncExponential", "Uniform"};
+      vector<string> od;
+      const char* ns[] = {"n=0", "n=-1", "n=0 parseArguments=0"};
+      for (auto& f : famn) for (auto n : ns) od.push_back(f + " " + n);
+      add("readDiscreteDistribution.class-count", {"alpha=2", "lambda=2", "begin=0,end=1"}, od, [famn](const string& s, int o, vf::Case& c) {
+        const char* nv[] = {"n=0", "n=-1", "n=0"};
+        string desc = famn[(size_t)(o / 3)] + "(" + nv[o % 3] + (s.empty() ? "" : ",") + s + ")";
         BppODiscreteDistributionFormat rd(false);
-        S(c, "BppODiscreteDistributionFormat::readDiscreteDistribution(class count)");
-        auto d = rd.readDiscreteDistribution(desc, o != 3);
-        S(c, "DiscreteDistribution accessors after read(class count)");
+        S(c, "BppODiscreteDistributionFormat::readDiscreteDistribution");
+        auto d = rd.readDiscreteDistribution(desc, (o % 3) != 2);
+        S(c, "DiscreteDistribution accessors after read");
         size_t n = d->getNumberOfCategories(); use(n);
         for (size_t i = 0; i < n && i < 4; ++i) { use(d->getCategory(i)); use(d->getProbability(i)); }
       }, false);
@@ -559,15 +577,15 @@ int main(int argc, char** argv) {
   vector<EP> eps = buildEPs();
   // per-entry-point length overrides (quick, thorough); default 5 | 7 then lowered to the case cap
   map<string, std::pair<int, int>> maxLen = {
-    {"StringTokenizer.empty-delimiters", {3, 4}},          // solid mode: every case fails on the unchanged tree -> bounded supervision cost
-    {"NestedStringTokenizer.empty-delimiters", {3, 4}},
+    {"StringTokenizer.empty-delimiters", {2, 3}},          // solid mode: every case fails on the unchanged tree -> bounded supervision cost
+    {"NestedStringTokenizer.empty-delimiters", {2, 3}},
     {"NestedStringTokenizer.unparse-through-base", {3, 4}},
     {"AttributesTools.resolveVariables.words", {6, 7}},
     {"AttributesTools.getAttributesMap.continuation", {4, 5}},
     {"ApplicationTools.range-vector-readers", {4, 5}},
     {"DataTable.edits", {4, 5}},
     {"NumCalcApplicationTools.getVector.words", {4, 5}},
-    {"readDiscreteDistribution.Simple", {3, 4}},
+    {"readDiscreteDistribution.Simple", {2, 3}},
     {"readDiscreteDistribution.compound", {4, 5}},
   };
   const uint64_t cap = th ? 2500000ULL : 150000ULL;
@@ -582,7 +600,7 @@ int main(int argc, char** argv) {
     auto it = maxLen.find(ep.name); if (it != maxLen.end()) want = th ? it->second.second : it->second.first;
     bool distItems = ep.name.find("readDiscreteDistribution.") == 0 && ep.name != "readDiscreteDistribution.compound";
     bool classCount = ep.name.find(".class-count") != string::npos;
-    if (distItems && it == maxLen.end()) want = classCount ? (th ? 2 : 1) : (th ? 4 : 3);
+    if (distItems && it == maxLen.end()) want = classCount ? (th ? 2 : 1) : (th ? 3 : 2);
     int L = fitLen(A, want, O, cap);
     uint64_t nS = countUpTo(A, L);
     capsNote += ep.name + "=" + vf::str(L) + (L < want ? "(capped from " + vf::str(want) + ")" : "") + "; ";
@@ -599,14 +617,15 @@ int main(int argc, char** argv) {
     // ---- repetition families: every word of 1..3 letters repeated to >= 64 and >= 4096 bytes ----
     int wl = (A > 12) ? 2 : 3;
     if (ep.name.find(".empty-delimiters") != string::npos) wl = 1;   // solid mode: every case fails on the unchanged tree
-    if (ep.name == "FileTools.paths" || classCount) wl = 1;           // getParent: every separator-free heap string fails on the unchanged tree
+    if (ep.name.find("ComputationTree") == 0 || ep.name == "DataTable.edits") wl = 2;   // 4 KiB formulas / tables are the slowest cases
+    if (ep.name == "FileTools.paths" || distItems) wl = 1;           // getParent: every separator-free heap string fails on the unchanged tree
     uint64_t nW = countUpTo(A, wl) - 1;
     string rname = "rep:" + ep.name + ":letters=" + vf::str(A) + ":w<=" + vf::str(wl) + ":bytes=64,4096:opts=" + vf::str(O);
     R.space(rname, nW * 2 * O, [ep, A, O, sep](uint64_t idx, vf::Case& c) {
       int opt = (int)(idx % O); uint64_t r = idx / O; size_t target = (r % 2) ? 4096 : 64; vector<int> d = seqOf(r / 2 + 1, A);
       string w; for (size_t i = 0; i < d.size(); ++i) { if (i) w += sep; w += ep.alpha[(size_t)d[i]]; }
       string in; while (in.size() < target) { if (!in.empty()) in += sep; in += w; }
-      execCase(ep, in, opt, c, 0.5);
+      execCase(ep, in, opt, c, 0.25);
       if (idx % 1009 == 5) c.sample(ep.name + " [" + ep.opts[(size_t)opt] + "] (" + show(w) + ")^k, " + vf::str(in.size()) + " bytes" + (c.failed ? " -> violation" : " -> ok"));
     }, 30.0, 16);
     if (!R.replay) {
@@ -616,7 +635,7 @@ int main(int argc, char** argv) {
   }
   R.note(capsNote);
   R.note(vf::str(nEP) + " entry-point groups covering ~90 public functions; each group's alphabet and option list is in the harness (buildEPs)");
-  R.note("outcome classes: '<entry point> returned' and '<entry point> raised-bpp::Exception' are the two permitted outcomes; everything else is a violation with signature kind|site|class; crash|<site>|exit97 is the CPU-time watchdog (the case did not terminate within 0.05 s / 0.5 s of CPU time)");
+  R.note("outcome classes: '<entry point> returned' and '<entry point> raised-bpp::Exception' are the two permitted outcomes; everything else is a violation with signature kind|site|class; crash|<site>|exit97 is the CPU-time watchdog (the case did not terminate within 0.05 s / 0.25 s of CPU time)");
   R.note("AttributesTools::removeComments is private; it is exercised through getAttributesMap (letters # / * and, in option 3, new-lines inside elements)");
   R.note("entry points that read files or the terminal (getAttributesMapFromFile, parseOptions with param=, fileExists on user paths) are not driven; getAFilePath is called with mustExist=false");
   return R.finish();
